@@ -434,8 +434,13 @@ pub struct Gas<'a> {
 }
 
 pub fn deploy_gas<'a>(env: &Env) -> Gas<'a> {
+    deploy_gas_cfg(env, false)
+}
+
+/// `single_key`: the owner and the gas collector are the same address
+pub fn deploy_gas_cfg<'a>(env: &Env, single_key: bool) -> Gas<'a> {
     let owner = Address::generate(env);
-    let collector = Address::generate(env);
+    let collector = if single_key { owner.clone() } else { Address::generate(env) };
     let id = env.register(AxelarGasService, (&owner, &collector));
     Gas { client: AxelarGasServiceClient::new(env, &id), id, owner, collector }
 }
